@@ -292,13 +292,13 @@ func TestVF_C10(t *testing.T) {
 	defer r.Finish()
 	r.Rule("case = one generated fixture (1..3 raw TSDB blocks: sequential / replica / half-overlapping in time, 1..6 chunks per series, dense/late/early/gappy/single-sample series, ~10% native-histogram series, " +
 		"1..many segment files, stored labels colliding with external labels) served by 3 BucketStores (index cache none / large / tiny-evicting; header sampling 1,2,32; small series/chunk size estimates forcing refetch; pooled chunk bytes; partitioner gap 1..default) " +
-		"x selector sessions: one generated selector set (1..4 matchers of 20 shapes; 40% constrain several different labels, 30% put 2..3 matchers on one label, rest free incl. external and absent names) is issued with a sequence of 1..4 closed ranges " +
+		"x selector sessions: one generated selector set (1..4 matchers of 20 shapes; 40% constrain several different labels (half of them with value-adding matchers only, the shape that makes the store expand postings lazily), 30% put 2..3 matchers on one label, rest free incl. external and absent names) is issued with a sequence of 1..4 closed ranges " +
 		"(patterns: single, narrow-then-wide, wide-then-narrow, disjoint windows, nested growing, free ranges at chunk/block edges; SkipChunks 15%), so caches filled under one range are read under another; 20% of the requests re-issue an earlier request verbatim. " +
 		"Every request is issued twice in a row on every store with freshly drawn lazy-postings settings and series batch size (1,3,10000). " +
 		"oracle: flattened answer == union over blocks of Prometheus NewBlockChunkQuerier(block,mint,maxt).Select(DisableTrimming) with external labels applied, chunks compared as sets of (mint,maxt,encoding,bytes). " +
 		"evaluation = one store answer compared; distinct/non-trivial = (fixture, request) whose reference answer has at least one series")
 	nFix := r.N(8, 70)
-	nReq := r.N(40, 80)
+	nReq := r.N(36, 80)
 	r.Require(int64(nFix*nReq*4), nFix*nReq/8)
 	r.Assume("request ranges have mint <= maxt; blocks have no tombstones; block meta min/max time bound the samples (as the compactor writes them)")
 	r.Assume("series that become label-identical after external labels override stored ones are one series whose chunks are the union (identical chunks once), as the store's documented merge does")
@@ -351,7 +351,9 @@ func vfc10RunFixture(t *testing.T, r *vfkit.Run, c int, rng *rand.Rand, nReq int
 		default:
 			// a selector session: one selector set, a sequence of requests whose ranges vary
 			var ms []vfc07M
-			if k := rng.Intn(10); k < 4 {
+			if k := rng.Intn(10); k < 2 {
+				ms = vfc07GenMatchersPositive(rng, fx.u)
+			} else if k < 4 {
 				ms = vfc07GenMatchersMulti(rng, fx.u, 0.05)
 			} else if k < 7 {
 				ms = vfc07GenMatchersSameName(rng, fx.u)
